@@ -6,6 +6,7 @@ import SqlProofs.AccessorSpec
 import SqlModel.Pipeline
 import SqlProofs.SplitNonWs
 import SqlProofs.GroupTotal
+import SqlProofs.DelimChild.Filters
 /-!
 # C07 — totality: any text and any valid option set gives a result or SQLParseError
 
@@ -65,5 +66,14 @@ theorem aligned_total : type_of% @Sql.aligned_total := @Sql.aligned_total
 theorem reindent_total : type_of% @Sql.reindent_total := @Sql.reindent_total
 /-- a whole stack of statement filters: if every stage receives a tree of its domain, the stage raises only RecursionError (→ SQLParseError) -/
 theorem statement_filter_stack_total : type_of% @Sql.runStmtObjs_total := @Sql.runStmtObjs_total
+
+/-- **the bridge from grouping to the filter domains** (SqlProofs/DelimChild): the tree `groupStatement` returns for a flat statement
+satisfying the decidable `DelimSafe` lies in the domain of `strip_whitespace` and of `reindent_aligned`, so on such statements these two
+filters raise nothing but RecursionError — the domain hypothesis of `strip_whitespace_total` / `aligned_total` is discharged by a hypothesis
+on the TOKENS, not on the tree -/
+theorem stripws_domain_of_delimSafe : type_of% @Sql.stripws_domain_of_delimSafe := @Sql.stripws_domain_of_delimSafe
+theorem strip_whitespace_total_of_delimSafe : type_of% @Sql.stripWhitespace_total_of_delimSafe := @Sql.stripWhitespace_total_of_delimSafe
+theorem aligned_domain_of_delimSafe : type_of% @Sql.aligned_domain_of_delimSafe := @Sql.aligned_domain_of_delimSafe
+theorem aligned_total_of_delimSafe : type_of% @Sql.aligned_total_of_delimSafe := @Sql.aligned_total_of_delimSafe
 
 end Sql.C07
